@@ -150,7 +150,7 @@ def drain(order=('A', 'B')):
     return dict(buses=['A', 'B'], order=list(order), reals={'d1': D, 'd2': ['0', '1/10'], 't1': TI}, handlers=handlers, main=main, horizon=6)
 
 
-def forward_chain(n=3, order=None, topo='chain', second_event=False, slow=True):
+def forward_chain(n=3, order=None, topo='chain', second_event=False, slow=True, late=False, poll=False):
     """forwarding over n buses: chain A->B->C, cycle (+C->A), diamond A->B, A->C, B->D, C->D."""
     names = ['A', 'B', 'C', 'D'][:n]
     if topo == 'chain':
@@ -179,7 +179,13 @@ def forward_chain(n=3, order=None, topo='chain', second_event=False, slow=True):
     if topo == 'fanin':
         main += [['root', 'B', 'P', 'P2']]
     main += [['await', 'P1'], ['obs', 'after_await', 'P1']] + [['idle', b] for b in names] + [['obs_all', 'end']]
-    return dict(buses=names, order=list(order or names), reals=reals, handlers=handlers, forwards=fw, main=main, horizon=8)
+    cfg = dict(buses=names, order=list(order or names), reals=reals, handlers=handlers, forwards=fw, main=main, horizon=8)
+    if late:
+        cfg['late_handlers'] = [['A', '*', 'hLate', [['read_bus'], ['ret', 'late']]]]
+    if poll:
+        reals['t_p'] = ['0', '1']
+        cfg['actors'] = {'poll': [['poll', 't_p', 'P1']]}
+    return cfg
 
 
 def parallel_handlers(order=('A', 'B')):
